@@ -1,4 +1,5 @@
 import BM.Props.C14
+import BM.Props.Pins
 import BM.Proofs.Nesting
 import BM.Proofs.Bytes
 /-
